@@ -199,6 +199,26 @@ let () =
         !good && int_of_n rz.rcode = 0 && List.length rz.rin = 2 && not rz.rfail in
     Printf.sprintf "%s %d" (hex_of_bytes out) (if ok then 1 else 0))
 
+(* model encoder as a generator: serialise an arbitrary symbol list (valid or not) as a raw LZMA1 stream with end marker.
+   tokens: L<byte>  M<dist>,<len>  S  R<idx>,<len> *)
+let () =
+  reg "lzmaenc" (fun a -> match a with
+    | lc :: lp :: pb :: toks ->
+      let pr = { lc = n_of_int (int_of_string lc); lp = n_of_int (int_of_string lp); pb = n_of_int (int_of_string pb) } in
+      let two t = match String.split_on_char ',' (String.sub t 1 (String.length t - 1)) with
+        | [x; y] -> (n_of_int (int_of_string x), n_of_int (int_of_string y)) | _ -> failwith "tok" in
+      let syms = List.map (fun t -> match t.[0] with
+        | 'L' -> SLit (n_of_int (int_of_string (String.sub t 1 (String.length t - 1))))
+        | 'M' -> let (d, l) = two t in SMatch (d, l)
+        | 'S' -> SShortRep
+        | 'R' -> let (i, l) = two t in SLongRep (i, l)
+        | _ -> failwith "tok") toks in
+      let er = enc_run pr (z_init None) syms in
+      let zf = snd er in
+      let ds = fst er @ fst (enc_eopm pr zf zf.zps) in
+      hex_of_bytes (encode ds)
+    | _ -> "ERR")
+
 (* LZMA2 chunk trace: parse a raw LZMA2 stream chunk by chunk starting at [start], trace the symbols of every LZMA
    chunk with the specification decoder and rebuild the chunk list.  Returns (error, chunks, position of the end byte,
    final model state, statistics). *)
